@@ -996,6 +996,12 @@ fn cmd_seq(a: &Args) -> i32 {
                 wl_seq::run_program::<Option<Tp<1>>, FillFastSlots>(pseed, l, ledger),
                 wl_seq::run_program::<Option<Tp<1>>, std::sync::RwLock<()>>(pseed, l, ledger),
             ]
+        } else if val == "rc" && n % 2 == 1 {
+            [
+                wl_seq::run_program::<tp::RcPlain, DefaultStrategy>(pseed, l, false),
+                wl_seq::run_program::<tp::RcPlain, FillFastSlots>(pseed, l, false),
+                wl_seq::run_program::<tp::RcPlain, std::sync::RwLock<()>>(pseed, l, false),
+            ]
         } else if val == "rc" {
             [
                 wl_seq::run_program::<tp::RcOpt, DefaultStrategy>(pseed, l, false),
